@@ -278,6 +278,8 @@ def build(case):
     for mat in (1, 2):
         deck.mats.append(M.Material(mat, [('13027', '1')]))
     deck.tags.add(f'c12.{fam}')
+    if rng.random() < 0.15:
+        M.add_unrelated_cards(deck, rng)
     return deck
 
 
